@@ -33,6 +33,9 @@ Conds == IF Skeleton THEN {[t |-> "const", n |-> 0], [t |-> "const", n |-> 1]} E
          \cup (IF Rich THEN {[t |-> "def", m |-> "B"], [t |-> "eq", m |-> "B", n |-> 2],
                              [t |-> "val", m |-> "B"], [t |-> "bad"]} ELSE {})
 DefVals == IF Rich THEN {"", "1", "2"} ELSE {"1", "2"}
+\* Rich: A may also be defined AS THE IDENTIFIER B ("m:B"), so that a condition naming A depends on B only
+\* indirectly, through rescanning - B's value differs between the configurations analysed together
+DefPairs == (Macros \X DefVals) \cup (IF Rich THEN {<<"A", "m:B">>} ELSE {})
 Code == [k |-> "code"]
 
 VARIABLES prog,    \* Seq(Item)
@@ -58,7 +61,7 @@ AddElse == /\ ~done /\ open # <<>> /\ Top(open) = "if" /\ Room(0)
 AddEndif == /\ ~done /\ open # <<>>
             /\ Add([k |-> "endif"]) /\ open' = Pop(open)
 AddDefine == /\ ~done /\ Room(0) /\ ~Skeleton
-             /\ \E m \in Macros, v \in DefVals : Add([k |-> "define", m |-> m, v |-> v])
+             /\ \E mv \in DefPairs : Add([k |-> "define", m |-> mv[1], v |-> mv[2]])
              /\ UNCHANGED open
 AddUndef == /\ ~done /\ Room(0) /\ ~Skeleton
             /\ \E m \in Macros : Add([k |-> "undef", m |-> m])
